@@ -332,7 +332,7 @@ impl Check for C14 {
     fn cases(&self, tier: Tier) -> u64 {
         match tier {
             Tier::Quick => 600,
-            Tier::Thorough => 6000,
+            Tier::Thorough => 5000,
         }
     }
     fn langs(&self) -> Vec<&'static str> {
